@@ -47,6 +47,8 @@ THEOREMS = [
     "Nix.C18.C18_shape_conversion",
     "Nix.C18.C18_shape_readers",
     "Nix.C18.C18_shape_ops",
+    "Nix.C18.C18_content_no_name_taken",
+    "Nix.C18.C18_fails_only_on_taken_name",
     "Nix.C18.C18_values_never_lost",
     "Nix.C18.C18_failed_stays_old",
     "Nix.C18.C18_inside_never_rescheduled",
@@ -55,7 +57,8 @@ THEOREMS = [
 ]
 ASSUMPTIONS = [
     "interruption points are those the property names: before a task and between individual property / dimension "
-    "conversions (= each h5py.File(fname, 'a') opened by nixio.cmd.upgrade), not inside one conversion",
+    "conversions (= each h5py.File(fname, 'a') opened by nixio.cmd.upgrade); cuts inside one conversion are modelled "
+    "at create_property granularity (an exception inside the `with` block closes the file normally) and proved lossy",
     "libhdf5 is modelled, not verified: H5Ovisit enumerates links in ascending name order depth-first, Group.values() "
     "of creation-order-tracked groups in creation order, a closed file is on disk (interruption by exception or "
     "os._exit between two opens)",
@@ -66,35 +69,45 @@ ASSUMPTIONS = [
     "group (model hypothesis WF); id texts with blanks/underscores/sign characters are outside the is_uuid model",
 ]
 TRUSTED_EXTRA = ["harness/props/c18.py: h5py crafting of old-format files, `abstract()` (HDF5 -> model file schema), "
-                 "the h5py namespace proxy that raises/kills at the k-th mode-'a' open inside nixio.cmd.upgrade"]
+                 "the h5py namespace proxy that raises/kills at the k-th mode-'a' open inside nixio.cmd.upgrade",
+                 "harness/extract/upgradeshape.py (ast translator of the upgrade / reader shape)"]
 READY = True
 MANIFEST = {
     "level_text": "Kernel-checked theorems over a Lean model of nixio/cmd/upgrade.py (collect_tasks flattened to one "
-                  "step per file open; every step with its re-checked precondition and the points where h5py raises), "
-                  "for every library version, file and interruption point: the version bump is the last step and the "
-                  "only one that changes the version, so every interrupted state is still old; re-running after any "
-                  "prefix of the steps - and after any history of interruptions - gives the same file and outcome as an "
-                  "uninterrupted run up to the invocation that made fresh ids/timestamps (what is left to collect is "
-                  "exactly the rest of the list: induction + sorted-permutation uniqueness for the visit order); the "
-                  "result has nothing left to collect, a second upgrade and a stale task list are the identity, the "
-                  "file opens for writing; when no `<name>.<extra>` name is taken no step can fail and values, dtype, "
-                  "unit, definition and every per-value extra of every property are retrievable, plain properties, "
-                  "arrays and dimension readings (alias range dimensions: ticks, unit, label) are unchanged. The model "
-                  "is tied to the code by differential runs on h5py-crafted old files with every interruption point.",
-    "level_note": "Partial: interruption inside one conversion is out of scope (the property's own quantifier); "
-                  "libhdf5 behaviour (visit order, creation order, durability of a closed file) is modelled and "
-                  "exercised by the correspondence, not proved. The full content statement is false of the code "
-                  "(C18_content_counterexample, open known finding C18-extra-name-collision): C18_content_partial "
-                  "carries the decidable hypothesis Clean (no `<name>.<extra>` name already taken).",
+                  "step per file open; every step with its re-checked precondition and the points where h5py raises; "
+                  "doubles as exact rationals / NaN / inf with the set() and any() semantics of the uncertainty "
+                  "decision), for every library version, file and interruption point: the version bump is the last "
+                  "step and the only one that changes the version, so every interrupted state - and every failed "
+                  "upgrade - is still old; re-running after any prefix of the steps, and after any history of "
+                  "interruptions, gives the same file and outcome as an uninterrupted run up to the invocation that "
+                  "made fresh ids/timestamps; the result has nothing left to collect, a second upgrade and a stale task "
+                  "list are the identity, the file opens for writing; for every file, every step list and failing "
+                  "steps included, every property keeps dtype, values, unit and definition; when no dataset sits at a "
+                  "`<name>.<extra>` name of a compound property (NoNameTaken; the five suffixes are proved to give "
+                  "pairwise distinct names) no step can fail - that is the only way an upgrade fails - and every per-value extra of every property is retrievable, plain "
+                  "properties, arrays and dimension readings (alias range dimensions: ticks, unit, label) are "
+                  "unchanged. The shape of the source (task order and conditions in collect_tasks, loop direction in "
+                  "process_tasks, find / re-check tests, the rules for the per-value extras, order of delete/create, "
+                  "RangeDimension.is_alias and the ticks/unit/label getters) is regenerated from nixio/cmd/upgrade.py "
+                  "and nixio/dimensions.py on every run and proved equal to the model (C18_shape_*); the rest of the "
+                  "model is tied to the code by differential runs on h5py-crafted old files with every interruption "
+                  "point.",
+    "level_note": "Partial: the full content statement is false of the code (C18_content_counterexample, open known "
+                  "finding C18-extra-name-collision): C18_content_partial / C18_content_no_name_taken carry the decidable "
+                  "hypothesis Clean / NoNameTaken (no `<name>.<extra>` name already taken); without it C18_values_never_lost still holds. Interruption "
+                  "inside one conversion is outside the property's quantifier; it is modelled (cut at the c-th "
+                  "create_property call, exercised by the correspondence) and proved NOT recoverable "
+                  "(C18_inside_counterexample, C18_inside_never_rescheduled). libhdf5 behaviour (visit order, creation "
+                  "order, durability of a closed file) is modelled and exercised by the correspondence, not proved.",
     "technique": "Lean 4 proof (induction over step lists, erase-homomorphism, run invariants, sorted-permutation "
-                 "uniqueness) with differential correspondence on real HDF5 files and an interruption sweep",
+                 "uniqueness, interpreters for the ast-extracted source shape) with differential correspondence on "
+                 "real HDF5 files, an interruption sweep and a property oracle comparing every per-value extra exactly",
 }
 
 
-
 def extract(repo):
-    """nixio/cmd/upgrade.py -> NixModel/Generated/UpgradeShape.lean (shape of collect_tasks, process_tasks, the
-    tests and the rules of one conversion)"""
+    """nixio/cmd/upgrade.py, nixio/dimensions.py -> NixModel/Generated/UpgradeShape.lean (shape of collect_tasks,
+    process_tasks, the tests and the rules of one conversion, the range dimension readers)"""
     return _shape.extract(repo)
 
 
@@ -909,7 +922,7 @@ def _gen_array(rng, used, aliasness):
     for _ in range(rng.choice([0, 1, 1, 2, 3])):
         r = rng.random()
         if r < aliasness:
-            a["dims"].append({"kind": "alias", "unit": rng.choice([None, "own"]), "label": None})
+            a["dims"].append({"kind": "alias", "unit": rng.choice([None, "own"]), "label": rng.choice([None, None, "own l"])})
         elif r < aliasness + 0.15:
             a["dims"].append({"kind": "range", "ticks": [_fs(x) for x in sorted(_dyadic(rng) for _ in range(3))],
                               "unit": rng.choice(UNITS[:4]), "label": rng.choice([None, "l"])})
@@ -920,7 +933,7 @@ def _gen_array(rng, used, aliasness):
             a["dims"].append({"kind": "bare", "unit": rng.choice([None, "u"]), "label": rng.choice([None, "l"])})
         elif r < aliasness + 0.5:
             a["dims"].append({"kind": "sampled", "interval": _fs(Fraction(rng.randint(1, 9), 4)),
-                              "unit": rng.choice(UNITS[:4]), "label": None})
+                              "unit": rng.choice(UNITS[:4]), "label": rng.choice([None, "t"])})
         else:
             a["dims"].append({"kind": "set", "labels": rng.choice([[], ["a", "b"]])})
     return a
